@@ -37,6 +37,40 @@ def directions(sh, case):
         except Exception as e:
             sh.violate(case, {'mechanism': attach.exc_mechanism(e), 'message': 'direction %s raised %r' % (d, e)},
                        'directions')
+    # the assembled table: compute_burst_features puts, row for row, what the four feature functions return for the same cycle table
+    # (each of them is judged by its own monitor) - also when the cycle table carries its own row labels
+    from bycycle.features.burst import compute_burst_features, compute_amp_fraction, compute_monotonicity
+    import pandas as pd
+    for labels in ('default', 'offset', 'gaps'):
+        tb = df.copy()
+        if labels == 'offset':
+            tb.index = pd.RangeIndex(9, 9 + len(tb))
+        elif labels == 'gaps':
+            tb.index = pd.Index(np.arange(len(tb)) * 2 + 3)
+        try:
+            with quiet():
+                out = compute_burst_features(tb, np.array(case['sig'], copy=True), burst_method='cycles')
+                parts = {'amp_fraction': compute_amp_fraction(tb), 'amp_consistency': compute_amp_consistency(tb),
+                         'period_consistency': compute_period_consistency(tb),
+                         'monotonicity': compute_monotonicity(tb, np.array(case['sig'], copy=True))}
+        except Exception as e:
+            sh.violate(case, {'mechanism': attach.exc_mechanism(e), 'message': 'compute_burst_features on a table with %s row labels raised %r'
+                                                                              % (labels, e)}, 'directions')
+            continue
+        attach.count('C05:assembled_tables:%s_row_labels' % labels)
+        if len(out) != len(tb):
+            sh.violate(case, {'mechanism': 'burst-feature-table-rows', 'message': '%d rows for %d cycles (%s row labels)' % (len(out), len(tb), labels)},
+                       'directions')
+            continue
+        for col, ref in parts.items():
+            x = np.asarray(out[col], dtype=float)
+            y = np.asarray(ref, dtype=float)
+            if not np.array_equal(x, y, equal_nan=True):
+                i = int(np.flatnonzero(~((x == y) | (np.isnan(x) & np.isnan(y))))[0])
+                sh.violate(case, {'mechanism': 'burst-feature-table-misassembled:' + col,
+                                  'message': 'compute_burst_features (%s row labels) row %d %s: %r, the feature function returns %r for that cycle'
+                                             % (labels, i, col, x[i], y[i])}, 'directions')
+                break
     for v in attach.take_violations():
         if v['property'] in (PROP, '_monitor'):
             sh.violate(case, v, 'directions')
